@@ -47,8 +47,9 @@ def build(nl, name='top'):
     order = list(range(len(nl['g'])))
     if nl.get('rev'):
         order.reverse()
-    for k, s in enumerate(nl['st']):
-        b.st.append(Node(c, f's{k}', s['k']))
+    b.st = [None] * len(nl['st'])
+    for k in (reversed(range(len(nl['st']))) if nl.get('strev') else range(len(nl['st']))):     # creation order = order in s_nodes
+        b.st[k] = Node(c, f's{k}', nl['st'][k]['k'])
     for k in order:
         gate_nodes[k] = Node(c, f'g{k}', nl['g'][k]['k'])
     b.g = gate_nodes
